@@ -217,3 +217,107 @@ func BlocksReachableAvoiding(start *ssa.BasicBlock, avoid map[*ssa.BasicBlock]bo
 	}
 	return seen
 }
+
+// PostDom holds the post-dominator sets of a function (virtual exit joins all returns/panics).
+type PostDom struct {
+	fn   *ssa.Function
+	pdom map[*ssa.BasicBlock]map[*ssa.BasicBlock]bool // pdom[b] = set of blocks post-dominating b (incl. b)
+}
+
+// NewPostDom computes post-dominators by the classic iterative set algorithm (functions are small).
+func NewPostDom(fn *ssa.Function) *PostDom {
+	p := &PostDom{fn: fn, pdom: map[*ssa.BasicBlock]map[*ssa.BasicBlock]bool{}}
+	all := map[*ssa.BasicBlock]bool{}
+	for _, b := range fn.Blocks {
+		all[b] = true
+	}
+	isExit := func(b *ssa.BasicBlock) bool { return len(b.Succs) == 0 }
+	for _, b := range fn.Blocks {
+		if isExit(b) {
+			p.pdom[b] = map[*ssa.BasicBlock]bool{b: true}
+		} else {
+			s := map[*ssa.BasicBlock]bool{}
+			for k := range all {
+				s[k] = true
+			}
+			p.pdom[b] = s
+		}
+	}
+	changed := true
+	for changed {
+		changed = false
+		for i := len(fn.Blocks) - 1; i >= 0; i-- {
+			b := fn.Blocks[i]
+			if isExit(b) {
+				continue
+			}
+			var inter map[*ssa.BasicBlock]bool
+			for _, s := range b.Succs {
+				if inter == nil {
+					inter = map[*ssa.BasicBlock]bool{}
+					for k := range p.pdom[s] {
+						inter[k] = true
+					}
+				} else {
+					for k := range inter {
+						if !p.pdom[s][k] {
+							delete(inter, k)
+						}
+					}
+				}
+			}
+			if inter == nil {
+				inter = map[*ssa.BasicBlock]bool{}
+			}
+			inter[b] = true
+			if len(inter) != len(p.pdom[b]) {
+				p.pdom[b] = inter
+				changed = true
+			}
+		}
+	}
+	return p
+}
+
+// PostDominates reports whether a post-dominates b.
+func (p *PostDom) PostDominates(a, b *ssa.BasicBlock) bool { return p.pdom[b][a] }
+
+// ControlDeps returns the branch decisions block target is directly control dependent on:
+// edges X→Y (X ending in If) such that target post-dominates Y (or is Y) but not X.
+func (p *PostDom) ControlDeps(target *ssa.BasicBlock) []Guard {
+	var out []Guard
+	for _, x := range p.fn.Blocks {
+		if len(x.Instrs) == 0 {
+			continue
+		}
+		ifi, ok := x.Instrs[len(x.Instrs)-1].(*ssa.If)
+		if !ok {
+			continue
+		}
+		for i, y := range x.Succs {
+			if (y == target || p.PostDominates(target, y)) && !(x != target && p.PostDominates(target, x)) {
+				out = append(out, Guard{ifi, i == 0})
+			}
+		}
+	}
+	return out
+}
+
+// ControlDepsTransitive follows control dependence upwards (bounded) and returns all decisions.
+func (p *PostDom) ControlDepsTransitive(target *ssa.BasicBlock) []Guard {
+	seen := map[*ssa.BasicBlock]bool{target: true}
+	var out []Guard
+	work := []*ssa.BasicBlock{target}
+	for len(work) > 0 {
+		b := work[0]
+		work = work[1:]
+		for _, g := range p.ControlDeps(b) {
+			out = append(out, g)
+			if gb := g.If.Block(); !seen[gb] {
+				seen[gb] = true
+				work = append(work, gb)
+			}
+		}
+	}
+	return out
+}
